@@ -2,12 +2,12 @@ SPECIFICATION Spec
 CONSTANTS
   HasMax = FALSE
   KMax = 5
-  KMin = 1
-  MinZero = FALSE
-  KEdge = 1
-  KOut = 3
-  HasRit = FALSE
-  KRit = 0
+  KMin = 3
+  MinZero = TRUE
+  KEdge = 2
+  KOut = 4
+  HasRit = TRUE
+  KRit = 2
   Variant = "repaired"
 INVARIANT TypeOK
 INVARIANT NoCrash
